@@ -330,6 +330,7 @@ func (f *Frame) enterLoop(b *ssa.BasicBlock, li *loopInfo, st *State, g string, 
 		c := e.freshConst(h, e.heapSort[h])
 		ns.heap[h] = c
 	}
+	e.canonAfterHavoc(ns, writes)
 	na := e.freshConst("alloc", "Int")
 	e.assume(app("<=", st.alloc, na))
 	ns.alloc = na
